@@ -43,3 +43,16 @@ VARIANTS += [
     V("additive-bridge-dense-output", CORE + "base_solver.py", "            ys.append(interp.linear_interp(t0=prev_t, y0=prev_y, t1=curr_t, y1=curr_y, t=out_t))",
       "            out_y = interp.linear_interp(t0=prev_t, y0=prev_y, t1=curr_t, y1=curr_y, t=out_t)\n            if self.sde.noise_type == NOISE_TYPES.additive and prev_t < out_t < curr_t:\n                theta = (out_t - prev_t) / (curr_t - prev_t)\n                bridge = self.bm(prev_t, out_t) - theta * self.bm(prev_t, curr_t)\n                out_y = out_y + self.sde.g_prod(prev_t, prev_y, bridge)\n            ys.append(out_y)", expect="silent"),
 ]
+
+VARIANTS += [
+    # round-6 seed: a supplied BrownianInterval of another dtype / device is silently re-created "with the same entropy"
+    V("bm-recreated-in-state-dtype", CORE + "sdeint.py", "                              device=y0.device, levy_area_approximation=levy_area_approximation)\n",
+      "                              device=y0.device, levy_area_approximation=levy_area_approximation)\n"
+      "    elif isinstance(bm, BrownianInterval) and (bm.dtype != y0.dtype or bm.device != y0.device):\n"
+      "        bm = BrownianInterval(t0=ts[0], t1=ts[-1], size=bm.shape, dtype=y0.dtype, device=y0.device,\n"
+      "                              entropy=bm.entropy, levy_area_approximation=bm.levy_area_approximation)\n", rule="R01.6"),
+    V("twin-bm-dtype-only-inspected", CORE + "sdeint.py", "                              device=y0.device, levy_area_approximation=levy_area_approximation)\n",
+      "                              device=y0.device, levy_area_approximation=levy_area_approximation)\n"
+      "    elif isinstance(bm, BrownianInterval) and bm.dtype != y0.dtype:\n"
+      "        warnings.warn('The Brownian motion and the state have different dtypes.')\n", expect="silent"),
+]
